@@ -393,6 +393,9 @@ func c10Run(c *core.Ctx) {
 }
 
 func c10Replay(c *core.Ctx, payload json.RawMessage) {
+	if c01AttrReplay(c, payload) {
+		return
+	}
 	var p c10Payload
 	if err := json.Unmarshal(payload, &p); err != nil {
 		fmt.Println(err)
